@@ -194,3 +194,12 @@ Theorem C16_failure_example :
   loop_running (final rs) = false.
 Proof. exact failure_example. Qed.
 Print Assumptions C16_failure_example.
+
+(* Cached register values: whenever a params access returns a value it is the device's
+   TLParamsLocked — the context never serves a stale cached value, whatever failed before
+   (a failing register write leaves both the register and the cache as they were). *)
+Theorem C16_params_value : forall pl cs plc v,
+  r_res (run_call true CParams plc (final (run true pl cs))) = Ok v ->
+  v = Z.b2z (tl_locked (final (run true pl cs))).
+Proof. exact (params_value true). Qed.
+Print Assumptions C16_params_value.
